@@ -6,9 +6,11 @@ import (
 	"sort"
 
 	"github.com/DataDog/sketches-go/dataset"
+	"github.com/DataDog/sketches-go/ddsketch"
 	enc "github.com/DataDog/sketches-go/ddsketch/encoding"
 	"github.com/DataDog/sketches-go/ddsketch/mapping"
 	"github.com/DataDog/sketches-go/ddsketch/pb/sketchpb"
+	"github.com/DataDog/sketches-go/ddsketch/store"
 	"google.golang.org/protobuf/proto"
 
 	"verif/harness/internal/core"
@@ -37,7 +39,7 @@ func init() {
 		Rule: "case = one mapping of the C03 grid (incl. non-default offsets) plus a second one: binary Encode->Decode, ToProto->Marshal->Unmarshal->FromProto and EncodeProto->Unmarshal->FromProto must give mappings that are Equals both ways and agree bitwise on Index (300 probes), Value, LowerBound, RelativeAccuracy, Min/MaxIndexableValue; " +
 			"mapping from alpha Equals mapping from its (gamma, offset); Equals reflexive and symmetric on the pair; different kinds never equal; same kind with alpha >= 0.1% apart (or offsets apart) never equal. Non-trivial = non-default offset or pair of same kind with close parameters; distinct = hash of both mappings.",
 		Cases:     core.Scale(120000, 3000000),
-		Mandatory: []string{"oracle.binary_roundtrips", "oracle.proto_roundtrips", "oracle.stream_proto_roundtrips", "oracle.inequalities.kind", "oracle.inequalities.alpha", "oracle.inequalities.offset", "oracle.probe_agreements", "oracle.accuracy_vs_base_and_offset", "oracle.near_twin_pairs", "oracle.message_is_a_value", "oracle.second_mapping_roundtrips", "second_mapping.same_base_and_offset_other_kind", "oracle.near_twin_roundtrips", "near_twins.equal_within_tolerance", "near_twins.zero_offset_vs_tiny_offset"},
+		Mandatory: []string{"oracle.binary_roundtrips", "oracle.proto_roundtrips", "oracle.stream_proto_roundtrips", "oracle.inequalities.kind", "oracle.inequalities.alpha", "oracle.inequalities.offset", "oracle.probe_agreements", "oracle.accuracy_vs_base_and_offset", "oracle.near_twin_pairs", "oracle.gate_checks", "oracle.message_is_a_value", "oracle.second_mapping_roundtrips", "second_mapping.same_base_and_offset_other_kind", "oracle.near_twin_roundtrips", "near_twins.equal_within_tolerance", "near_twins.zero_offset_vs_tiny_offset"},
 		Run:       runC19,
 	})
 	core.Register(&core.Prop{
@@ -678,6 +680,33 @@ func runC19(c *core.Ctx) {
 		if a.Kind != b.Kind && (ab || ba) {
 			c.Failf("equals.kinds", "mappings of different kinds are Equals: %s / %s", a.Desc, b.Desc)
 		}
+	}
+	// this equality is what gates merging and decoding: sketches over A and B merge, decode into each other and
+	// decode from one stream exactly when A Equals B
+	if ab == ba && !c.Failed() {
+		c.Guard("gate", func() {
+			mk := func(mm *gen.Map) *ddsketch.DDSketch {
+				k := ddsketch.NewDDSketchFromStoreProvider(mm.M, store.SparseStoreConstructor)
+				k.Add(mm.ClampIn(2))
+				return k
+			}
+			var ea, eb []byte
+			mk(a).Encode(&ea, false)
+			mk(b).Encode(&eb, false)
+			errMerge := mk(a).MergeWith(mk(b))
+			errDecode := mk(a).DecodeAndMergeWith(eb)
+			_, errStream := ddsketch.DecodeDDSketch(append(append([]byte{}, ea...), eb...), store.SparseStoreConstructor, nil)
+			_, errStream2 := ddsketch.DecodeDDSketch(append(append([]byte{}, eb...), ea...), store.SparseStoreConstructor, nil)
+			c.Count("oracle.gate_checks", 1)
+			for i, e := range []error{errMerge, errDecode, errStream, errStream2} {
+				what := []string{"MergeWith", "DecodeAndMergeWith", "DecodeDDSketch of both encodings in one stream (A first)", "DecodeDDSketch of both encodings in one stream (B first)"}[i]
+				if ab && e != nil {
+					c.Failf("gate.refuses_equal:"+what, "%s / %s are Equals but %s returned %v", a.Desc, b.Desc, what, e)
+				} else if !ab && e == nil {
+					c.Failf("gate.accepts_unequal:"+what, "%s / %s are not Equals but %s returned no error", a.Desc, b.Desc, what)
+				}
+			}
+		})
 	}
 	if a.Offset != 0 || relation == "alpha" || relation == "offset" {
 		c.NonTrivial()
